@@ -11,7 +11,7 @@ from ..dag import T, walk, show, deep_inline, simplify
 from ..model import FunctionInfo, AnalysisError, dotted
 from ..report import Ctx
 from ..tensor import Typer
-from ..util import norm, fn_body_nodes, walk_local, kwarg
+from ..util import arg_texts, arg_nodes, norm, fn_body_nodes, walk_local, kwarg
 from .. import alg, pat
 from .common import arg_permutation_rule, names_in, calls_named, converged_from_counter
 
@@ -99,7 +99,7 @@ def run(ctx: Ctx):
         return None, None, None
     r = [n for n in pst if isinstance(n, ast.Return) and isinstance(n.value, ast.Call)]
     if r:
-        kwn = {k.arg: k.value for k in r[0].value.keywords}
+        kwn = arg_nodes(r[0].value)
         kw = {k: ast.unparse(v) for k, v in kwn.items()}
         fields = {"state_gain": (0, "StateTable.from_state_list"), "action_gain": (1, "StateActionTable.from_state_action_lists"),
                   "state_value": (2, "StateTable.from_state_list"), "action_value": (3, "StateActionTable.from_state_action_lists")}
@@ -145,7 +145,7 @@ def run(ctx: Ctx):
                         srcs.add(pos.get(e2["x"]))
                 ctx.check(srcs == {1, 3}, "BEL-4", po, c1[0][0], "one maximiser set is of the action gains, the other of the action values", str(srcs), "the two maximiser sets are not those of action gain and action bias")
     # kwargs forwarded to the solver
-    kw = {k.arg: ast.unparse(k.value) for k in call[0].keywords}
+    kw = arg_texts(call[0])
     want = {"transition_matrix": f"{mdp}.transition_matrix", "absorbing_state_vec": f"{mdp}.absorbing_state_vec.astype(bool)", "discount_rate": f"{mdp}.discount_rate",
             "reward_matrix": f"{mdp}.reward_matrix", "action_matrix": f"{mdp}.action_matrix.astype(bool)", "max_iterations": "self.max_iterations"}
     for k, v in want.items():
